@@ -9,4 +9,5 @@ import (
 	_ "verif/harness/checks/c09"
 	_ "verif/harness/checks/c10"
 	_ "verif/harness/checks/c16"
+	_ "verif/harness/checks/c17"
 )
